@@ -8,6 +8,7 @@ import (
 	"sync"
 	"time"
 
+	"github.com/gopcua/opcua/simhook"
 	"github.com/gopcua/opcua/ua"
 	"github.com/gopcua/opcua/uacp"
 	"github.com/gopcua/opcua/uasc"
@@ -112,6 +113,7 @@ outer:
 				break outer
 			}
 			// todo(fs): honor ctx
+			simhook.Yield("server.beforeMsgChan")
 			c.msgChan <- msg
 		}
 	}
